@@ -60,6 +60,8 @@ class NodeLib(LibBase):
         nodes_sl.install(self)
         nodes_proc.install(self)
         nodes_utils.install(self)
+        from contracts import nodes_init
+        nodes_init.install(self)
 
     def classes(self):
         return [k for k in PROFILES if self.contracts[k]]
